@@ -68,6 +68,8 @@ def dec(j):
     return j
 DEV = []
 CLK = []
+CALLS = []
+GHOST = {}
 class _Stub:
     def __init__(self, kind, sid): self._kind, self._sid = kind, sid; self._returns = {}; self._raises = {}
     def __getattr__(self, name):
@@ -79,6 +81,11 @@ class _Stub:
         if name in self.__dict__.get('_returns', {}):
             val = self._returns[name]
             return lambda *a, **k: val
+        if self.__dict__.get('_kind') == 'generic':
+            def rec(*a, **k):
+                CALLS.append((self, name, a))
+                return True if name in ('acquire', 'is_alive') else None
+            return rec
         raise AttributeError(name)
     # device
     def set_color(self, color, duration, rapid=False): DEV.append((self, 'set_color', color, duration))
@@ -121,7 +128,7 @@ def enc(v, depth=0):
         return j
     return {'t': 'opaque', 'r': repr(v)[:80]}
 for pre in job.get('pre_exec', []):
-    exec(pre, {'__name__': 'replay_pre'})
+    exec(pre, {'__name__': 'replay_pre', 'GHOST': GHOST, 'CALLS': CALLS})
 mod = importlib.import_module(job['module'])
 fn = mod
 if job.get('lemma_src'):
@@ -156,6 +163,8 @@ except BaseException as e:
 ids.clear()
 out['args_after'] = [enc(a) for a in args]
 out['stdout'] = _buf.getvalue()
+out['calls'] = [enc(e) for e in CALLS]
+out['ghost'] = {k: enc(v) for k, v in GHOST.items()}
 out['dev'] = [enc(e) for e in DEV]
 out['clk'] = [enc(e) for e in CLK]
 json.dump(out, open(sys.argv[3], 'w'))
@@ -307,7 +316,11 @@ def decode(I, j, memo):
             try:
                 cls = I.load_module(j['m']).ns[j['c']]
             except Exception:
-                return Opaque('native:%s.%s' % (j['m'], j['c']))
+                cls = None
+            if not isinstance(cls, ClassObj):
+                o = Opaque('native:%s.%s' % (j['m'], j['c']))
+                memo[j['id']] = o
+                return o
             if cls.builtin_base == 'list':
                 o = PyList([], cls)
                 memo[j['id']] = o
@@ -352,7 +365,7 @@ def native_replay(pid, contract, ob, repo):
         else:
             args = {n: alts[case[n]].build(b, n) for n, alts in contract.arg_specs}
         holder['args'] = args
-        holder['pre_exec'] = list(getattr(b, 'pre_exec', []))
+        holder['pre_exec'] = list(getattr(b._b, 'pre_exec', []))
         holder['provided'] = list(getattr(b._b, 'provided', []))
         return 'ok'
     saved_loops, saved_contracts = I.loopspecs, I.contracts
@@ -431,6 +444,12 @@ def native_replay(pid, contract, ob, repo):
         I.ghost['Dev'] = PyList([decode(I, e, memo) for e in out.get('dev', [])])
         I.ghost['Clk'] = PyList([decode(I, e, memo) for e in out.get('clk', [])])
         I.ghost['OutText'] = out.get('stdout', '')
+        I.ghost['Calls'] = PyList([decode(I, e, memo) for e in out.get('calls', [])])
+        for gk, gv in (out.get('ghost') or {}).items():
+            I.ghost[gk] = decode(I, gv, memo)
+        hook2 = getattr(contract, 'replay_ghost', None)
+        if hook2 is not None:
+            hook2(I)
         penv = Env(env_vars, None, fn.module.ns, None)
         for dname, dtext in contract.defines_:
             penv.vars[dname] = I.eval_spec_value(dtext, penv)
